@@ -56,21 +56,32 @@ def make_endpoint(rid, beh, log):
     from clastic import Response
     from clastic.errors import NotFound, Forbidden, ServiceUnavailable
 
+    kept = {}
+
+    def err(cls, **kw):
+        # odd routes raise / return ONE long-lived error object (a module-level constant in user code), even routes a
+        # fresh one per request: dispatch must not leave anything behind on it
+        if int(rid) % 2 == 0:
+            return cls(**kw)
+        if 'e' not in kept:
+            kept['e'] = cls(**kw)
+        return kept['e']
+
     def ep(request, x=None, r=None, o=None, y=None):
         log.ids.append(rid)
         m = marker(rid)
         if beh == 'answer':
             return Response(m)
         if beh == 'raise4xx':
-            raise NotFound(detail=m)
+            raise err(NotFound, detail=m)
         if beh == 'ret4xx':
-            return Forbidden(detail=m)
+            return err(Forbidden, detail=m)
         if beh == 'raise5xx':
             raise ServiceUnavailable(detail=m)
         if beh == 'nbraise':
-            raise NotFound(detail=m, is_breaking=False)
+            raise err(NotFound, detail=m, is_breaking=False)
         if beh == 'nbret':
-            return Forbidden(detail=m, is_breaking=False)
+            return err(Forbidden, detail=m, is_breaking=False)
         if beh == 'uncaught':
             raise ValueError(m)
         if beh == 'nonresp':
@@ -85,6 +96,9 @@ def make_route(entry, log, trail=False, **kw):
     methods = entry.get('msv')
     if methods is not None:
         methods = [m for m in methods if m != 'HEAD'] or None
+    if not methods:
+        # "a route without methods admits every method": no method collection at all, or an empty one of any kind
+        methods = {0: None, 1: [], 2: (), 3: set()}[int(entry['id']) % 4]
     if methods:
         # method names are case-insensitive in a route declaration too: spell them differently per route
         spell = {0: str.upper, 1: str.lower, 2: str.title}[int(entry['id']) % 3]
